@@ -107,6 +107,19 @@ def inputs12(ck, rnd):
             out.append((kind, "addinfo", raw[:1] + bytes([info]) + bytes(range(min(info, 8))) + raw[2:]))
             out.append((kind, "addinfo-short", raw[:1] + bytes([info]) + raw[2:]))
         out.append((kind, "trailing", raw + b"\x00"))
+    # every application service inside a well-formed link frame (group and individual destination): the application layer's errors must
+    # come out of the frame parser as declared errors, too
+    for v in range(1024):
+        for ln in ((2, 3, 6, 13, 14, 29) if quick else (2, 3, 4, 5, 6, 7, 9, 11, 13, 14, 15, 16, 23, 29, 30, 60)):
+            for fill in ((0, 0xFF, None) if quick else (0, 0xFF, 0x20, 0x55, None, None)):
+                apdu = bytes([v >> 8, v & 0xFF]) + (bytes([fill]) * (ln - 2) if fill is not None else bytes(rnd.randrange(256) for _ in range(ln - 2)))
+                for ctrl2, dst in ((0xE0, b"\x09\x01"), (0x60, b"\x11\x02")):
+                    out.append(("apdu", f"apci{ln}", bytes([0x29, 0x00, 0xBC, ctrl2, 0x11, 0x05]) + dst + bytes([ln - 1]) + apdu))
+    for scf in range(256):                                   # A_SecureData: every security control field
+        for ln in (13, 14, 20):
+            apdu = bytes([0x03, 0xF1, scf]) + bytes(rnd.randrange(256) for _ in range(ln - 3))
+            out.append(("apdu", "secure", bytes([0x29, 0x00, 0xBC, 0xE0, 0x11, 0x05, 0x09, 0x01, ln - 1]) + apdu))
+            out.append(("apdu", "secure", bytes([0x29, 0x00, 0xBC, 0x60, 0x11, 0x05, 0x11, 0x02, ln - 1]) + apdu))
     for code in range(256):
         for body in (b"", b"\x00", b"\x00\x00", bytes(7), bytes(8), bytes([0, 0xBC, 0xE0, 0x11, 0x09, 0x00, 0x01, 0x01, 0x00, 0x80]),
                      bytes([0, 0x0B, 1, 0x34, 0x10, 0x01, 0x07]), bytes([0, 0x0B, 1, 0x34, 0x00, 0x01, 0x07]), bytes([0xFF] * 12)):
